@@ -628,6 +628,7 @@ class LanczosGroundState(KrylovBased):
             Used dimension of the Krylov space, i.e., how many iterations where performed.
 
         """
+        self._cache = []  # clear vectors left from a previous call, they would be used for `reortho`
         N = self._build_krylov()
         E0 = self.Es[N - 1, 0]
         if N > 1:
